@@ -65,3 +65,6 @@ def run(chk):
     if thorough: run_scen(chk, 'c09_canon', {'pair': 1}, 'the same across the sub-formulas of two trees', native_canon, 'canon')
     run_scen(chk, 'c09_dups', {'k': 1}, 'mark_duplicates on one tree: counter m implies >= m+1 occurrences up to renaming with identical free-variable domains', native_dups, 'dups')
     run_scen(chk, 'c09_dups', {'k': 2, 'second': None if thorough else [2, 5, 6, 10]}, 'mark_duplicates on two trees', native_dups, 'dups')
+    if chk.unexplored:
+        from .. import fallback
+        fallback.canonisation(chk, 'C09', native_canon, native_dups)
